@@ -1,6 +1,8 @@
 package main
 
 import (
+	"go/token"
+	"sort"
 	"fmt"
 	"go/types"
 	"regexp"
@@ -346,7 +348,7 @@ func (g *Gen) havocLoop(li *loopInfo) {
 	st := g.st
 	cells := map[*ssa.Alloc]bool{}
 	var recs []writeRec
-	for b := range li.blocks {
+	for _, b := range sortedBlocks(li.blocks) {
 		for _, ins := range b.Instrs {
 			switch x := ins.(type) {
 			case *ssa.Store:
@@ -378,7 +380,7 @@ func (g *Gen) havocLoop(li *loopInfo) {
 	for _, r := range recs {
 		effs = append(effs, g.writeEffects(r, li, cells, written)...)
 	}
-	for al := range cells {
+	for _, al := range sortedAllocs(cells) {
 		if _, ok := st.cells[al]; !ok {
 			continue
 		}
@@ -554,7 +556,7 @@ func (g *Gen) stableBase(v ssa.Value, li *loopInfo, cells map[*ssa.Alloc]bool, w
 		}
 		var base *Term
 		n := 0
-		for b := range li.blocks {
+		for _, b := range sortedBlocks(li.blocks) {
 			for _, ins := range b.Instrs {
 				st, ok := ins.(*ssa.Store)
 				if !ok || st.Addr != ssa.Value(al) {
@@ -946,15 +948,23 @@ func (g *Gen) applyContract(con *Contract, names []string, args []Val, resT type
 		post["result0"] = res
 	}
 	cx2 := &Ctx{st: st, old: pre, vars: post, oldV: bind, pkg: pkg}
-	for _, e := range con.Ensures {
-		// clauses over the callee's ghost variables speak about its internal history: not usable by callers
-		internal := false
+	// the callee's ghost variables are existential for the caller: a clause that mentions one was proved for the
+	// value the ghost had, so it holds for some value - a fresh unconstrained one here
+	if len(con.Ghost) > 0 {
+		cxd := &Ctx{st: pre, old: pre, vars: bind, oldV: bind, pkg: pkg}
 		for _, gd := range con.Ghost {
-			internal = internal || mentionsIdent(e.Expr, gd.Name)
+			def := g.evalSpec(gd.Expr, cxd)
+			if def.T == nil {
+				def = Val{T: types.Typ[types.Int], C: []Term{g.unifyTo(def.C[0], g.intRep())}}
+			}
+			v := Val{T: def.T}
+			for _, c := range def.C {
+				v.C = append(v.C, g.fresh("cgh_"+gd.Name, c.Sort))
+			}
+			post[gd.Name] = v
 		}
-		if internal {
-			continue
-		}
+	}
+	for _, e := range con.Ensures {
 		g.assumeReach(g.evalBool(e.Expr, cx2, e))
 	}
 	return res
@@ -1328,4 +1338,81 @@ func mentionsIdent(e *E, name string) bool {
 		}
 	}
 	return false
+}
+
+// sortedAllocs: deterministic order for emitting per-local terms (query text must not depend on map order:
+// the solvers' behaviour does)
+func sortedAllocs[V any](m map[*ssa.Alloc]V) []*ssa.Alloc {
+	out := make([]*ssa.Alloc, 0, len(m))
+	for al := range m {
+		out = append(out, al)
+	}
+	sort.Slice(out, func(i, j int) bool {
+		a, b := out[i], out[j]
+		if a.Pos() != b.Pos() {
+			// token.Pos values of different files depend on the (concurrent) parse order: compare file, then offset
+			pa, pb := posKey(a), posKey(b)
+			if pa != pb {
+				return pa < pb
+			}
+		}
+		if a.Comment != b.Comment {
+			return a.Comment < b.Comment
+		}
+		if a.Parent() != b.Parent() && a.Parent() != nil && b.Parent() != nil {
+			return a.Parent().String() < b.Parent().String()
+		}
+		if a.Block() != nil && b.Block() != nil && a.Block().Index != b.Block().Index {
+			return a.Block().Index < b.Block().Index
+		}
+		return allocOrdinal(a) < allocOrdinal(b)
+	})
+	return out
+}
+
+func (g *Gen) sortedLoops() []*loopInfo {
+	out := make([]*loopInfo, 0, len(g.loops))
+	for _, li := range g.loops {
+		out = append(out, li)
+	}
+	sort.Slice(out, func(i, j int) bool { return out[i].header.Index < out[j].header.Index })
+	return out
+}
+
+func sortedBlocks(m map[*ssa.BasicBlock]bool) []*ssa.BasicBlock {
+	out := make([]*ssa.BasicBlock, 0, len(m))
+	for b := range m {
+		out = append(out, b)
+	}
+	sort.Slice(out, func(i, j int) bool { return out[i].Index < out[j].Index })
+	return out
+}
+
+// allocOrdinal: position of a local among the locals of its function (Locals order, else instruction order)
+func allocOrdinal(a *ssa.Alloc) int {
+	if f := a.Parent(); f != nil {
+		for i, l := range f.Locals {
+			if l == a {
+				return i
+			}
+		}
+		if b := a.Block(); b != nil {
+			for i, ins := range b.Instrs {
+				if ins == ssa.Instruction(a) {
+					return 1000000 + i
+				}
+			}
+		}
+	}
+	return 0
+}
+
+var posKeyFset *token.FileSet
+
+func posKey(a *ssa.Alloc) string {
+	if !a.Pos().IsValid() || posKeyFset == nil {
+		return ""
+	}
+	p := posKeyFset.Position(a.Pos())
+	return fmt.Sprintf("%s:%09d", p.Filename, p.Offset)
 }
